@@ -436,18 +436,18 @@ def copy_mut(ctx: Ctx) -> None:
             direct_params = {r[6:] for r in nonfresh if r.startswith("param:") and "." not in r[6:]}
             other = nonfresh - {f"param:{p}" for p in direct_params}
             if not nonfresh:
-                ctx.ob(f, n, True, f"`{what}` mutates a fresh graph (copy / new / composed)", sel=f"copy:{what}", props=_props_for(f))
+                ctx.ob(f, n, True, f"`{what}` mutates a fresh graph (copy / new / composed)", sel=f"copy:{ctx.anon(f, n, 60)}", props=_props_for(f))
             elif not other and direct_params and f.name.startswith("_"):
                 # private mutating helper: obligation moves to its callers
                 helpers.setdefault(f.qual, set()).update(direct_params)
-                ctx.ob(f, n, True, f"`{what}` mutates parameter {sorted(direct_params)} of a private helper; callers are checked", sel=f"copy:{what}", props=_props_for(f), nontrivial=False)
+                ctx.ob(f, n, True, f"`{what}` mutates parameter {sorted(direct_params)} of a private helper; callers are checked", sel=f"copy:{ctx.anon(f, n, 60)}", props=_props_for(f), nontrivial=False)
             else:
                 ctx.ob(
                     f,
                     n,
                     False,
                     f"`{what}` mutates a graph/node dict that is not a fresh copy (origin {sorted(nonfresh)[:2]}): plan objects shared with other arrays or with the lru_cache are changed in place",
-                    sel=f"copy:{what}",
+                    sel=f"copy:{ctx.anon(f, n, 60)}",
                     props=_props_for(f),
                 )
     eff = effects_of(repo)
